@@ -520,6 +520,10 @@ fn jv(args: &[&str], i: &mut usize) -> Option<serde_json::Value> {
       v.push(jv(args, i)?);
     }
   }
+  // `w:<text>`: a string in which `_` stands for a space and `^` for a tab (white space is part of a string's key)
+  if let Some(w) = t.strip_prefix("w:") {
+    return Some(serde_json::Value::String(w.replace('_', " ").replace('^', "\t")));
+  }
   t.strip_prefix("s:").map(|s| serde_json::Value::String(s.to_string()))
 }
 
@@ -726,6 +730,23 @@ pub fn gen(thorough: bool, seed: u64, out: &mut impl Write) {
         }
         writeln!(out, "C19 oos {} |", l).unwrap();
         writeln!(out, "C19 oom {} |", l).unwrap();
+      }
+    }
+  }
+  // strings that differ in surrounding white space only are different keys
+  {
+    let atoms = ["s:a", "w:a_", "w:_a", "w:a__", "w:a^", "w:_"];
+    for ty in ["oset", "oos", "oom"] {
+      for len in 1..=3usize {
+        let total = atoms.len().pow(len as u32);
+        for mut n in 0..total {
+          let mut l = vec![];
+          for _ in 0..len {
+            l.push(atoms[n % atoms.len()]);
+            n /= atoms.len();
+          }
+          writeln!(out, "C19 json {} [ {} ]", ty, l.join(" ")).unwrap();
+        }
       }
     }
   }
